@@ -158,8 +158,8 @@ void harness(void)
 		}
 		t += len;
 	}
-#if P2V >= 3
-	if (d[0] >= 2 && d[0] <= 3 && len >= 5) WITNESS("copy mixes pre-filled window, literals and its own output");
+#if P2V == 3
+	if (d[0] == 4 && len >= 6) WITNESS("copy mixes pre-filled window, literals and its own output");
 #endif
 #if P2V == 14
 	if (d[NCOPY - 1] == 16383) WITNESS("largest distance the ring can address");
